@@ -368,7 +368,13 @@ Require Import Proofs.MoreDict.
 (* "is_empty() is equivalent to len() == 0", on the OPERATIONS of the model
    (Model/MapOps.v: length_ = Map::len, is_empty = Map::is_empty; Set::len /
    Set::is_empty are the instance V := unit).  EVERY state and every
-   environment: no invariant, no lawfulness is needed.                         *)
+   environment: no invariant, no lawfulness is needed.
+   NOTE: C05_len_spec, C05_is_empty_spec, C05_capacity_spec and
+   C05_is_empty_iff_len_zero hold by UNFOLDING the definitions of the three
+   observers (proofs: reflexivity / Nat.eqb_eq).  They carry no proof effort;
+   their role is to PIN the observers: any change of Model/MapOps.v that made
+   is_empty differ from `len == 0` would break them (and the correspondence
+   check ties these definitions to the crate).                                 *)
 Theorem C05_len_spec :
   forall (K V T : Type) (w : world K V T), length_ w = Ok (len (self w)) w.
 Proof. exact (@len_spec). Qed.
@@ -545,3 +551,116 @@ Theorem C05_iter_run_all_count :
     w.
 Proof. exact (@iter_run_all_count). Qed.
 Print Assumptions C05_iter_run_all_count.
+
+(* ========================================================================== *)
+(* SECOND AUDIT ADDENDUM (Proofs/MoreDict.v, second part)                     *)
+(* ========================================================================== *)
+
+(* -------------------------------------------------------------------------- *)
+(* Set: "every yielded key can be looked up".  Set<T,N> stores (k, tt) pairs;
+   iteration yields, at slot i, the element k.
+     s_contains E q   Set::contains (SetOps.v);   s_get E q   Set::get: the slot of
+                      the stored element it returns a reference to;
+     cq q = ck k      q is (a borrowed form of) the yielded element.            *)
+Theorem C05_s_yielded_contains :
+  forall (K Q T : Type) (E : env K unit Q T) (ck : K -> N) (cq : Q -> N),
+  Lawful E ck cq ->
+  forall (q : Q) (i : nat) (k : K) (w : world K unit T),
+  WF (self w) ->
+  Uniq ck (Spec.elems (self w)) ->
+  nth_error (Spec.elems (self w)) i = Some (k, tt) ->
+  cq q = ck k ->
+  wp (s_contains E q)
+    (fun (b : bool) (w' : world K unit T) => b = true /\ stable w w')
+    (fun _ : world K unit T => False) w.
+Proof. exact (@s_yielded_contains). Qed.
+Print Assumptions C05_s_yielded_contains.
+
+Theorem C05_s_yielded_get :
+  forall (K Q T : Type) (E : env K unit Q T) (ck : K -> N) (cq : Q -> N),
+  Lawful E ck cq ->
+  forall (q : Q) (i : nat) (k : K) (w : world K unit T),
+  WF (self w) ->
+  Uniq ck (Spec.elems (self w)) ->
+  nth_error (Spec.elems (self w)) i = Some (k, tt) ->
+  cq q = ck k ->
+  wp (s_get E q)
+    (fun (r : option nat) (w' : world K unit T) => r = Some i /\ stable w w')
+    (fun _ : world K unit T => False) w.
+Proof. exact (@s_yielded_get). Qed.
+Print Assumptions C05_s_yielded_get.
+
+(* on every state reached from Set::new() of ANY capacity by ANY history of Set
+   operations (overflow panics included): WF and Uniq discharged *)
+Theorem C05_s_yielded_reachable :
+  forall (K Q T : Type) (E : env K unit Q T) (debug : bool) (ck : K -> N) (cq : Q -> N),
+  Lawful E ck cq ->
+  forall (n : nat) (ops : list (@sop K Q)) (t : T) (lg : list event),
+  exists wf : world K unit T,
+    smfinal E debug ops {| cb := t; log := lg; self := new_map n |} = Some wf /\
+    forall (q : Q) (i : nat) (k : K),
+      nth_error (Spec.elems (self wf)) i = Some (k, tt) ->
+      cq q = ck k ->
+      wp (s_contains E q)
+        (fun (b : bool) (w' : world K unit T) => b = true /\ stable wf w')
+        (fun _ : world K unit T => False) wf /\
+      wp (s_get E q)
+        (fun (r : option nat) (w' : world K unit T) => r = Some i /\ stable wf w')
+        (fun _ : world K unit T => False) wf.
+Proof. exact (@s_yielded_reachable). Qed.
+Print Assumptions C05_s_yielded_reachable.
+
+Example C05_example_s_yielded :
+  let E := env_set {| sc_adv := false; sc_seed := 0; sc_fk := 0; sc_fa := 0 |} in
+  match smfinal E false [SoInsert (k_ 1 5); SoInsert (k_ 5 6); SoInsert (k_ 3 7)]
+                {| cb := cs0; log := []; self := new_map 2 |} with
+  | Some wf =>
+      nth_error (Spec.elems (self wf)) 1 = Some (k_ 5 6, tt) /\
+      match s_contains E (QCls 6) wf, s_get E (QKey (k_ 9 6)) wf with
+      | Ok b _, Ok r _ => b = true /\ r = Some 1
+      | _, _ => False
+      end
+  | None => False
+  end.
+Proof. vm_compute. repeat split; reflexivity. Qed.
+
+(* -------------------------------------------------------------------------- *)
+(* interpreter level (C05_yielded_lookup is the list fact): after ANY history of
+   the interpreter's operations (Exec.op: every API entry point; safe_op excludes
+   only insert_unchecked) from four fresh containers of ANY capacities, under an
+   honest script, in EACH register every yielded key looks up its own slot - by
+   the model's get / get_key_value (and dereferenced: the very pair) on the Map
+   registers (get_m r x: r = 0 -> xm0, otherwise xm1), by contains / get on the
+   Set registers (get_s r x: r = 2 -> xs0, otherwise xs1).  The world is the one
+   Exec.run_m / run_s build for an operation on that register
+   ({| cb := xcb x; log := []; self := get_m r x |}; any s, lg here).          *)
+Theorem C05_run_final_yielded_get :
+  forall (debug : bool) (sc : script) (ops : list op) (c0 c1 c2 c3 : N),
+  honest sc ->
+  Forall safe_op ops ->
+  let x := run_final debug sc ops (init_world c0 c1 c2 c3) in
+  (forall (r : N) (q : query) (i : nat) (p : key * vobj) (s : cstate) (lg : list event),
+     nth_error (Spec.elems (get_m r x)) i = Some p ->
+     qcls q = kcls (fst p) ->
+     let w := {| cb := s; log := lg; self := get_m r x |} in
+     wp (get (env_map sc) q)
+        (fun (o : option nat) (w' : world key vobj cstate) => o = Some i /\ stable w w')
+        (fun _ : world key vobj cstate => False) w /\
+     wp (get_key_value (env_map sc) q)
+        (fun (o : option nat) (w' : world key vobj cstate) => o = Some i /\ stable w w')
+        (fun _ : world key vobj cstate => False) w /\
+     wp (get_deref (env_map sc) q)
+        (fun (o : option (key * vobj)) (w' : world key vobj cstate) => o = Some p /\ stable w w')
+        (fun _ : world key vobj cstate => False) w) /\
+  (forall (r : N) (q : query) (i : nat) (k : key) (s : cstate) (lg : list event),
+     nth_error (Spec.elems (get_s r x)) i = Some (k, tt) ->
+     qcls q = kcls k ->
+     let w := {| cb := s; log := lg; self := get_s r x |} in
+     wp (s_contains (env_set sc) q)
+        (fun (b : bool) (w' : world key unit cstate) => b = true /\ stable w w')
+        (fun _ : world key unit cstate => False) w /\
+     wp (s_get (env_set sc) q)
+        (fun (o : option nat) (w' : world key unit cstate) => o = Some i /\ stable w w')
+        (fun _ : world key unit cstate => False) w).
+Proof. exact run_final_yielded_get. Qed.
+Print Assumptions C05_run_final_yielded_get.
